@@ -84,7 +84,7 @@ def run(tier, rep, ev):
         needs = "AES" in chain or header == "encrypted"
         return {"chain": chain, "password": needs or (pw if pw is not None else R.random() < 0.3), "header": header, "target": target,
                 "block": R.choice(blocks[1:]) if i % 5 else None, "limit": R.choice(limits[1:]) if i % 3 else None,
-                "seed": R.getrandbits(32), "extract": "path" if i % 4 == 0 else "factory", "wd": os.path.join(base, f"c{i}"),
+                "seed": R.getrandbits(32), "extract": ["path", "factory", "hash", "factory"][i % 4], "wd": os.path.join(base, f"c{i}"),
                 "params": i % 2 == 0}
 
     i = 0
